@@ -398,16 +398,6 @@ Proof.
     cbn [steps]. split; [|exact S1]. unfold top_le in T1. destruct (ms_sched st2); [trivial | exact T1].
 Qed.
 
-Lemma steps_okd l lim : steps l -> match l with [] => True | h :: _ => e_depth h <= lim end ->
-  (fix okd (lim : nat) (ds : list nat) : bool :=
-     match ds with [] => true | x :: ds' => (0 <=? x) && (x <=? lim) && okd (S x) ds' end) lim (map e_depth l) = true.
-Proof.
-  revert lim. induction l as [|e l IH]; intros lim S0 H; [reflexivity|].
-  cbn [map]. cbn [steps] in S0. destruct S0 as [A B].
-  rewrite (proj2 (Nat.leb_le _ _) H). cbn [Nat.leb andb].
-  apply IH; [exact B | destruct l; [trivial | exact A]].
-Qed.
-
 (* the merge-sorted list starts at depth 0 and a step goes up by at most one *)
 Theorem merge_sorted_steps g t : wf_dag g = true -> t < length g ->
   steps (merge_sorted g (Some t)) /\
